@@ -31,7 +31,7 @@ var (
 	uHosts   = []string{"example.com", "EXAMPLE.com", "example.org", "example.com.", "127.0.0.1", "[::1]", "[::1:8080]", "[fe80::1%25en0]"}
 	uPorts   = []string{"", ":", ":80", ":443", ":8080", ":080", ":65535", ":65536", ":70000"}
 	uPaths   = []string{"", "/", "/a", "/A", "/%61", "/%41", "/a/./b", "/a/b", "/a/c/../b", "/a/%2e/b", "/a/c/%2e%2e/b", "/a/c/%2E%2E/b",
-		"/~x", "/%7Ex", "/%7ex", "/a%2Fb", "/a%2fb", "/a//b", "/a/", "/%E9", "/%e9", "/\xe9", "/%C3%A9", "/é", "/\xe2\x80\xa6", "/a/../../b", "/..",
+		"/~x", "/%7Ex", "/%7ex", "/a%2Fb", "/a%2fb", "/a//b", "/a/", "/%E9", "/%e9", "/\xe9", "/%C3%A9", "/é", "/\xe2\x80\xa6", "/a/../../b", "/..", "/b", "/x/y/../../b", "/x/b", "/x/./y/.././../b",
 		"/u_d-e.f", "/u%5Fd%2De%2Ef", "/u%5fd%2de%2ef",
 		"/d[1]", "/d%5B1%5D", "/m;v=1", "/m%3Bv%3D1", "/x^y", "/x%5Ey", "/p:q@r", "/p%3Aq%40r"}
 	uQueries = []string{"", "?", "?q=1", "?q=%31", "?Q=1", "?q=%E9", "?q=%e9", "?q=\xe9", "?q=é", "?q=%C3%A9", "?q=\xef\xbf\xbd", "?q=%EF%BF%BD", "?q=\xe2\x80\xa6", "?q=\x80", "?a=1&b=2", "?b=2&a=1", "?a=1&&b=2", "?a=1&b=2&", "?&a=1&b=2", "?&", "?&&", "?q=a+b", "?q=a%2Bb", "?q=a%2bb", "?q=a%20b",
@@ -402,6 +402,34 @@ func customC03(t *testing.T, e *mc.Explorer) *mc.ShardResult {
 			})
 			res.Executions += int64(2 * len(blk))
 			res.Transitions += int64(4 * len(blk))
+		}
+	}
+	// ---- long URLs that differ only at their far end (a key that is bounded or hashed must still tell them apart)
+	if e.Shard == 1%e.Shards {
+		for _, n := range []int{300, 1000, 2040, 2050, 3000, 9000} {
+			base := "http://example.com/long?"
+			for len(base) < n {
+				base += string(rune('a' + len(base)%26))
+			}
+			for _, pair := range [][2]string{{base + "1", base + "2"}, {base, base + "x"}, {base + "&z=1", base + "&z=2"}} {
+				synctest.Test(t, func(t *testing.T) {
+					w := world.New(world.Opt{})
+					defer w.Close()
+					answer(w, RS{Status: 200, H: H("Cache-Control", "max-age=100000")})
+					o1, o2 := get(w, pair[0]), get(w, pair[1])
+					res.Executions++
+					if o1.Tok != "" && o2.Err == nil && o2.Panic == nil && o2.Tok == o1.Tok && len(o2.Calls) == 0 {
+						sig := "URI collision between long URLs that differ at their end"
+						if v, ok := viol[sig]; ok {
+							v.Count++
+						} else {
+							viol[sig] = &mc.Violation{Property: "C03", Signature: sig, Count: 1, Shard: e.Shard, Choices: []int{},
+								Message: fmt.Sprintf("two URLs of about %d bytes that differ only in their last bytes share a stored response", n),
+								Trace:   []mc.Pt{{Label: "store-url", Desc: strconv.Quote(pair[0])}, {Label: "request-url", Desc: strconv.Quote(pair[1])}}}
+						}
+					}
+				})
+			}
 		}
 	}
 	// ---- URLs in opaque form (url.URL{Scheme, Host, Opaque}: net/http sends the opaque part as request-target to Host)
